@@ -3,6 +3,7 @@ import Fabio.Driver.RouteJson
 import Fabio.Model.C16
 import Fabio.Model.C16Serve
 import Fabio.Model.C16Relay
+import Fabio.Model.C16RelayLim
 import Fabio.Model.C03
 /-!
 Driver handlers for C16.
@@ -575,6 +576,16 @@ def serveBackendOf (impl : Json) (b : Nat) : Backend :=
 
 def hexLens (l : List String) : List Nat := l.map fun h => h.length / 2
 
+/-- the status code the relay with limits (`Model/C16RelayLim.lean`) predicts for a call whose backend reads the
+caller's stream to its end and then answers (`c16.serve`'s backends), on the schedule of `relaySchedule`'s
+default mode -/
+def limitedCode (lim : Serve.Limits) (method : String) (sent replies : List String) (scode : Nat) : Option Nat :=
+  let n := 3 * (sent.length + replies.length) + 8
+  let st : Relay.Status := { code := scode, message := if scode == 0 then "" else "scripted" }
+  let es : List Relay.Ev := sent.map Relay.Ev.callerSend ++ [.callerClose] ++ Relay.settle n ++
+    replies.map Relay.Ev.backendSend ++ [.backendFinish [] st] ++ Relay.settle n
+  (RelayLim.runL lim (Relay.init method []) es).cFin.map (·.2.code)
+
 open Serve in
 def serveH : Handler := fun inp impl => do
   let listeners := (getArrD inp "listeners").map (getBoolD · "tls")
@@ -627,7 +638,10 @@ def serveH : Handler := fun inp impl => do
         else if !lim.allOK req rep then ("limit", oc, some b)
         else ("forward", oc, some b)
       | _, _ => ("bad-call", 0, none)
-    let agreeC := sizesOK && code == mcode &&
+    -- where the connection comes up, the relay with limits must predict the same status as `Serve.outcome`
+    let limOK := (cls != "forward" && cls != "limit") ||
+      limitedCode lim (getStrD o "method") sent replies scode == some mcode
+    let agreeC := sizesOK && code == mcode && limOK &&
       (match cls with
        | "forward" => backend == mback && hits == 1 && relayed
        | "limit" => (backend == mback || backend.isNone) && hits ≤ 1
